@@ -734,3 +734,17 @@ VP("R6-fast-path-ignores-z", ["C07"], _S % "C07-r4s1", "single-session fast path
 VP("R6-lse-combine", ["C01"], _S % "C01-r4s2", "streaming log-sum-exp whose combine step does not rescale", kind="break")
 VP("R6-searchsorted-set-order", ["C14"], _S % "C14-r4s1", "binary search in the iteration order of a set", kind="break")
 VP("R6-one-pass-covariance", ["C14"], _S % "C14-r4s2", "covariance by X'X - n mu mu'", kind="break")
+
+# ---- rules from the fifth generic mutation sweep ---------------------------------------------------------------------------
+V("F5-estep-atleast2d-dropped", ["C02"], "gmm", "    data = np.atleast_2d(data)\n    n_gaussians = len(machine.weights)", "    n_gaussians = len(machine.weights)", "statistics of a single vector count its features as samples (t = n_features)")
+V2("F5-update-z-times-sigma", ["C07"], [dict(module="factor_analysis", old="""        dt_inv_sigma = self._D / self.variance_supervector
+        dt_inv_sigma_d = dt_inv_sigma * self._D
+        for y_i in set(y):
+            id_plus_d_prod = self._compute_id_plus_d_prod_i(dt_inv_sigma_d, n_acc[y_i])
+            X_i = self._get_statistics_by_class_id(X, y, y_i)
+            latent_x_i""", new="""        dt_inv_sigma = self._D * self.variance_supervector
+        dt_inv_sigma_d = dt_inv_sigma * self._D
+        for y_i in set(y):
+            id_plus_d_prod = self._compute_id_plus_d_prod_i(dt_inv_sigma_d, n_acc[y_i])
+            X_i = self._get_statistics_by_class_id(X, y, y_i)
+            latent_x_i""", count=2)], "update_z and compute_accumulators_D: D * sigma instead of D / sigma - every product still has consistent units because the identity was treated as unit-free")
